@@ -73,8 +73,6 @@ def audit_sources():
     bad = []
     for path in sorted(glob.glob(os.path.join(COQ, "**", "*.v"), recursive=True)):
         rel = os.path.relpath(path, COQ)
-        if rel.startswith("Gen" + os.sep):
-            continue
         src = strip_comments(open(path).read())
         depth = 0
         for n, line in enumerate(src.split("\n"), 1):
@@ -91,7 +89,7 @@ def audit_sources():
 
 def regen_coqproject():
     files = []
-    for d in ("Common", "Model", "Proofs", "Check", "Properties"):
+    for d in ("Common", "Gen", "Model", "Proofs", "Check", "Properties"):
         files += sorted(glob.glob(os.path.join(COQ, d, "*.v")))
     body = open(os.path.join(COQ, "_CoqProject.head")).read() + "\n".join(
         os.path.relpath(f, COQ) for f in files) + "\n"
